@@ -18,6 +18,7 @@ Inductive decomp :=
 | DTtG (cores : list (tensor (Z * Z)))
 | DTrG (cores : list (tensor (Z * Z)))
 | DTtmG (cores : list (tensor (Z * Z)))
+| DP2G (herm : bool) (w : option (tensor (Z * Z))) (fs ps : list (tensor (Z * Z)))   (* complex PARAFAC2 (complex projections included); herm: the source's orthonormality test is P^H P = I (read from the current source on every run) *)
 | DTt (cores : list (tensor Z))
 | DTr (cores : list (tensor Z))
 | DTtm (cores : list (tensor Z))
@@ -47,6 +48,9 @@ Definition rsr (r : res (list nat * list nat)) : out := match r with Ok (s, k) =
 Definition sumsq (t : tensor Z) : Z := fold_left (fun acc x => (acc + x * x)%Z) (data t) 0%Z.
 Definition rnorm (r : res (tensor Z)) : out := match r with Ok t => ONorm (inject_Z (sumsq t)) | Err => OErr end.
 
+(* _validate_parafac2_tensor on complex input: dot(transpose(P), P) = I as the source has it today, or -- if the source conjugates
+   (candidate repair C03_parafac2_complex_projections) -- the Hermitian test *)
+Definition p2g_validate (herm : bool) w fs ps := if herm then validate_parafac2_h GIops gconj w fs ps else validate_parafac2 GIops w fs ps.
 Definition rtg (r : res (tensor (Z * Z))) : out := match r with Ok t => OTG t | Err => OErr end.
 Definition run (d : decomp) (v : view) : out :=
   match d, v with
@@ -66,6 +70,12 @@ Definition run (d : decomp) (v : view) : out :=
   | DTrG cs, VTensor => rtg (tr_to_tensor GIops cs)
   | DTrG cs, VUnfolded m => rtg (tr_to_unfolded GIops cs m)
   | DTrG cs, VVec => rtg (tr_to_vec GIops cs)
+  (* _validate_parafac2_tensor as it is: dot(transpose(P), P) = I, no conjugation (candidate repair: validate_parafac2_h GIops gconj) *)
+  | DP2G h w fs ps, VValidate => match p2g_validate h w fs ps with Ok (s, r) => OSS s r | Err => OErr end
+  | DP2G h w fs ps, VSlice i => rtg (parafac2_to_slice_from GIops (p2g_validate h w fs ps) w fs ps i)
+  | DP2G h w fs ps, VTensor => rtg (parafac2_to_tensor_from GIops (p2g_validate h w fs ps) w fs ps)
+  | DP2G h w fs ps, VUnfolded m => rtg (rbind (parafac2_to_tensor_from GIops (p2g_validate h w fs ps) w fs ps) (fun t => unfold (0, 0)%Z t m))
+  | DP2G h w fs ps, VVec => rtg (rbind (parafac2_to_tensor_from GIops (p2g_validate h w fs ps) w fs ps) tensor_to_vec)
   | DTtmG cs, VValidate => rsr (validate_ttm cs)
   | DTtmG cs, VTensor => rtg (ttm_to_tensor GIops cs)
   | DTtmG cs, VMatrix => rtg (ttm_to_matrix GIops cs)
@@ -196,6 +206,7 @@ Definition obj_new (d : decomp) : res obj :=
   | DTtG _ => Err
   | DTrG _ => Err
   | DTtmG _ => Err
+  | DP2G _ _ _ _ => Err
   end.
 
 (* the call arguments (mask, skip_factor, transpose_factors) are those of the decomposition the history started from *)
